@@ -49,7 +49,9 @@ RULE = ("random rule systems (3-8 variables over the expression language of coq/
         "nb_persons / sum / has_role / first_parent, alone vs together by id; (n/5) float64 inputs that float32 rounds (0.1, "
         "2^24+1, 1/3) in situation 1 and 1e39 / inf / -inf / NaN in situation 2: stored array and dtype, x > 0.1, household "
         "sums; one case with 66000-70000 single-person households before and after situation 1 (membership arrays and "
-        "build_from_entities without households); non-trivial when a formula with a group operation was evaluated in the merged simulation "
+        "build_from_entities without households); (n/3) JSON situations with `axes` (count 2-4, one or two parallel axes per "
+        "situation) and member-less households in every position incl. last: every replicate of the merged / reordered "
+        "document against the same replicate of the situation alone; non-trivial when a formula with a group operation was evaluated in the merged simulation "
         "and returned an array; distinct by JSON text")
 TRUSTED = ["harness/rules.py: compiler from rule-system terms to real Variable subclasses (formulas call the public API)",
            "harness/c11.py: scatter-style construction of merged / permuted members_entity_id, members_role and input arrays"]
@@ -64,7 +66,7 @@ GROUP_PROFILE = {"nvars": (4, 8), "bad": 0.0, "badreq": 0.0, "nparams": 1, "neut
 SPIRAL_PROFILE = {"nvars": (2, 5), "spiral": 0.5, "bad": 0.0, "badreq": 0.0, "nparams": 1, "depth": 2}
 
 _SKIP = set()
-ORACLE_ONLY = ("divide", "first", "spell", "roles", "f32", "scale")
+ORACLE_ONLY = ("divide", "first", "spell", "roles", "f32", "scale", "axes")
 
 
 def _key(case):
@@ -322,6 +324,50 @@ def gen_scale(rng):
             "seed2": rng.randrange(10 ** 6), "modes": ["block+block-rev", "block+block-rev"]}
 
 
+def gen_sparse_pop(rng):
+    """1-4 persons in 1-4 households, households without members in every position (often the last one)"""
+    n, count = rng.randint(1, 4), rng.randint(1, 4)
+    used = sorted(rng.sample(range(count), rng.randint(1, count)))
+    if count > 1 and rng.random() < 0.5 and count - 1 in used:
+        used.remove(count - 1)              # the household written last has no member
+        used = used or [0]
+    ids = [rng.choice(used) for _ in range(n)]
+    roles, parents, heads = [], {}, set()
+    for g in ids:
+        r = rng.random()
+        if r < 0.5 and parents.get(g, 0) < 2:
+            roles.append(0)
+            parents[g] = parents.get(g, 0) + 1
+        elif r < 0.65 and g not in heads:
+            roles.append(2)
+            heads.add(g)
+        else:
+            roles.append(1)
+    return {"count": count, "ids": ids, "roles": roles}
+
+
+def gen_axes(rng):
+    """Oracle-only stream through build_from_entities with `axes` (count 2-4, one or two parallel axes per
+    situation): the replicated merged situation against each replicated situation alone, and a reordering of
+    situation 1."""
+    pop1, pop2 = gen_sparse_pop(rng), gen_sparse_pop(rng)
+    count = rng.randint(2, 4)
+    sits = []
+    for pop in (pop1, pop2):
+        n = len(pop["ids"])
+        vals = {name: [rng.choice([None, 10, 250, 1200]) for _ in range(n)] for name in ("x", "y")}
+        axes = [{"name": rng.choice(["x", "y"]), "index": rng.randrange(n), "min": rng.choice([0, 100]),
+                 "max": rng.choice([300, 900, 1000])} for _ in range(rng.randint(1, 2))]
+        if len(axes) == 2 and (axes[0]["name"], axes[0]["index"]) == (axes[1]["name"], axes[1]["index"]):
+            axes.pop()
+        sits.append({"vals": vals, "axes": axes})
+    pmode, f1, f2 = gen_interleaving(rng, len(pop1["ids"]), len(pop2["ids"]))
+    gmode, g1, g2 = gen_interleaving(rng, pop1["count"], pop2["count"])
+    return {"kind": "axes", "pop1": pop1, "pop2": pop2, "count": count, "sit1": sits[0], "sit2": sits[1],
+            "f1": f1, "f2": f2, "g1": g1, "g2": g2, "modes": [pmode, gmode],
+            "sp": gen_perm(rng, len(pop1["ids"])), "sg": gen_perm(rng, pop1["count"])}
+
+
 def generate(rng, tier):
     n = {"quick": 300, "escalated": 600, "thorough": 4000}[tier]
     cases = []
@@ -338,6 +384,8 @@ def generate(rng, tier):
         cases.append(gen_roles(rng))
     for _ in range(n // 5):
         cases.append(gen_f32(rng))
+    for _ in range(n // 3):
+        cases.append(gen_axes(rng))
     for _ in range(max(1, n // 1000)):
         cases.append(gen_scale(rng))
     return cases
@@ -956,7 +1004,96 @@ def oracle_scale(case, obs):
     return None
 
 
+def axes_document(case, parts, placements):
+    """JSON situation with axes.  parts: [(pop, sit)...]; placements: [(person placement, group placement)...]
+    (position of every person / household of each part in the document)"""
+    n = sum(len(pop["ids"]) for pop, _s in parts)
+    c = sum(pop["count"] for pop, _s in parts)
+    porder = scatter([(fp, [(k, i) for i in range(len(parts[k][0]["ids"]))]) for k, (fp, _fg) in enumerate(placements)], n)
+    gorder = scatter([(fg, [(k, g) for g in range(parts[k][0]["count"])]) for k, (_fp, fg) in enumerate(placements)], c)
+    persons, households = {}, {}
+    for k, i in porder:
+        d = {}
+        for name in ("x", "y"):
+            if parts[k][1]["vals"][name][i] is not None:
+                d[name] = {"2018-01": float(parts[k][1]["vals"][name][i])}
+        persons[f"s{k}_p{i}_"] = d
+    for k, g in gorder:
+        pop = parts[k][0]
+        d = {"parents": [], "children": [], "heads": []}
+        for i, gi in enumerate(pop["ids"]):
+            if gi == g:
+                d[["parents", "children", "heads"][pop["roles"][i]]].append(f"s{k}_p{i}_")
+        households[f"s{k}_h{g}_"] = d
+    axes = [{"name": a["name"], "count": case["count"], "min": a["min"], "max": a["max"], "period": "2018-01",
+             "index": placements[k][0][a["index"]]}
+            for k, (_pop, sit) in enumerate(parts) for a in sit["axes"]]
+    return {"persons": persons, "households": households, "axes": [axes]}
+
+
+def run_axes_one(doc):
+    from openfisca_core import periods
+    from openfisca_core.simulations.simulation_builder import SimulationBuilder
+    from openfisca_core.variables import Variable
+    tbs = small_system()
+    person, household = tbs.person_entity, tbs.group_entities[0]
+    tbs.add_variable(type("y", (Variable,), {"value_type": float, "entity": person,
+                                             "definition_period": periods.DateUnit.MONTH}))
+    tbs.add_variable(type("hy", (Variable,), {"value_type": float, "entity": household,
+                                              "definition_period": periods.DateUnit.MONTH,
+                                              "formula": lambda h, period: h.sum(h.members("y", period), role=h.entity.roles[0])}))
+    sim = SimulationBuilder().build_from_entities(tbs, doc)
+    hh = sim.populations["household"]
+
+    def show(name):
+        return [repr(float(v)) for v in sim.calculate(name, "2018-01")]
+    return {"person": {"x": show("x"), "y": show("y"), "household sum of x projected": show("hx_p"),
+                       "role": [r.key for r in hh.members_role]},
+            "group": {"household sum of x": show("hx"), "household size": show("nb"),
+                      "household sum of the parents' y": show("hy")}}
+
+
+def run_axes(case):
+    n1, c1 = len(case["pop1"]["ids"]), case["pop1"]["count"]
+    n2, c2 = len(case["pop2"]["ids"]), case["pop2"]["count"]
+    p1, p2 = (case["pop1"], case["sit1"]), (case["pop2"], case["sit2"])
+    docs = [axes_document(case, [p1], [(list(range(n1)), list(range(c1)))]),
+            axes_document(case, [p2], [(list(range(n2)), list(range(c2)))]),
+            axes_document(case, [p1, p2], [(case["f1"], case["g1"]), (case["f2"], case["g2"])]),
+            axes_document(case, [p1], [(case["sp"], case["sg"])])]
+    runs = []
+    with warnings.catch_warnings():
+        warnings.simplefilter("ignore")
+        for doc in docs:
+            try:
+                runs.append(run_axes_one(doc))
+            except Exception as e:  # noqa: BLE001
+                runs.append(Err(errkind(e), f"{type(e).__name__}: {e}"[:200]))
+    return {"axes": runs}
+
+
+def oracle_axes(case, obs):
+    a1, a2, m, p = obs["axes"]
+    n1, c1 = len(case["pop1"]["ids"]), case["pop1"]["count"]
+    n2, c2 = len(case["pop2"]["ids"]), case["pop2"]["count"]
+    cnt = case["count"]
+
+    def replicated(f, block):
+        return [r * block + j for r in range(cnt) for j in f]
+    for tag, big, small, fp, fg, nb, cb in (
+            ("merged-vs-situation1-axes", m, a1, case["f1"], case["g1"], n1 + n2, c1 + c2),
+            ("merged-vs-situation2-axes", m, a2, case["f2"], case["g2"], n1 + n2, c1 + c2),
+            ("permuted-axes", p, a1, case["sp"], case["sg"], n1, c1)):
+        msg = compare_small(f"{tag} ({cnt} replicates, every replicate in turn)", big, small,
+                            replicated(fp, nb), replicated(fg, cb), cnt * nb, cnt * cb)
+        if msg:
+            return msg
+    return None
+
+
 def run_impl(case):
+    if case.get("kind") == "axes":
+        return run_axes(case)
     if case.get("kind") == "f32":
         return run_f32(case)
     if case.get("kind") == "scale":
@@ -1092,6 +1229,8 @@ def oracle(case, obs):
         return oracle_roles(case, obs)
     if case.get("kind") == "f32":
         return oracle_f32(case, obs)
+    if case.get("kind") == "axes":
+        return oracle_axes(case, obs)
     if case.get("kind") == "scale":
         return oracle_scale(case, obs)
     if case.get("kind") == "spell":
@@ -1175,7 +1314,8 @@ def classify(case, obs):
                 "spell": "builder, differently spelled periods",
                 "roles": "builder, first role with sub-roles, persons left out / no household declared",
                 "f32": "float inputs float32 cannot represent next to huge / infinite ones",
-                "scale": "more than 65536 households"}[case["kind"]]
+                "scale": "more than 65536 households",
+                "axes": "builder with axes, households without members in every position"}[case["kind"]]
         return name + " (oracle only)" + ("" if isinstance(obs, dict) else " driver-error")
     if not kinded(case["sys"]):
         return "NOT-KINDED (outside the theorems' hypothesis)"
